@@ -58,7 +58,7 @@ claimed = {
    note="Trusted: the signal-delivery model of the hook (non-blocking send per registered channel; panic on a closed registered channel halts the world as the real process death would) - cross-validated by family rt.c03, which sends real signals to the real daemon on the real clock (it reproduces the closed-channel crash on the pre-fix tree); the driver model; the parent's reading of final files. Unsatisfiable fault plans (every attempted write of 255 made to fail) are not judged.",
    tech="deterministic simulation of the whole daemon process with signal/fault injection at seeded schedule points; final-state oracle"),
  "C09": dict(cat="fault_enumeration", ref="§3/C09",
-   text="A fixed, enumerated single-fault space (3519 faults: 27 backend/curve combinations x component x fault kind x position) is injected one at a time into the real daemon running closed loop in its own process under the simulator; thorough covers the whole list, quick a window of it chosen by VERIF_SEED; pairs of faults are sampled. After each run: no Go panic, no unrequested exit that leaves a fan unrestored, and every fan either still regulated at the end or stopped and restored.",
+   text="A fixed, enumerated single-fault space (3519 faults: 27 backend/curve combinations x component x fault kind x position) is injected one at a time into the real daemon running closed loop in its own process under the simulator; thorough covers the whole list, quick a window of it chosen by VERIF_SEED; pairs of faults are sampled. After each run: no Go panic, no unrequested exit that leaves a fan unrestored, and every fan either still regulated at the end or stopped and restored; for a fan still regulated through a linear curve, once the last fault lies 4 virtual s back, the PWM in force at the horizon must correspond to the temperature of the last 2 s (regulating is more than ticking). Family c09init places the fault inside a fan's initial analysis instead.",
    note="Exhaustive only over the listed single-fault space; pairs are sampled. An orderly whole-daemon shutdown that restores every fan is accepted as 'stops regulating after restoring'. EIO/EINVAL/timeouts are returned by the seam; other faults are produced on the real files and scripts.",
    tech="deterministic simulation with enumerated fault injection (one OS process per fault), survival + restore oracle"),
  "C11": dict(cat="exploration", ref="§3/C11",
